@@ -50,7 +50,9 @@ Print Assumptions C13b_chain_of_val_components_scribble_independent.
 
 (* The library as modelled: every chain of library components, in every order,
    not containing the documented exceptions (nack.DisableCopy, JitterBuffer.Push)
-   nor the outgoing-RTCP dumper (known finding), is scribble-independent.
+   nor the roles outside the property text (outgoing RTCP packet objects through
+   the packetdump sender, the caller's attributes map: [xknown_alias]), is
+   scribble-independent.
    PARTIAL: rests on the tables lib_par / lib_ret. *)
 Theorem C13b_library_chains_scribble_independent_partial : forall (A : Type) (ops : list (xop A)),
   (forall cs bufs, In (XCall cs bufs) ops -> forall x, In x cs -> xexception x = false /\ xknown_alias x = false) ->
@@ -152,8 +154,10 @@ Theorem C13b_library_rejects_big : forall (A : Type) (h c e a b : A) (n : Z), n 
 Proof. intros A. exact lib_rejects_big. Qed.
 Print Assumptions C13b_library_rejects_big.
 
-(* ---- outgoing RTCP objects (known finding): the packetdump sender keeps the
-   caller's []rtcp.Packet; the statistics interceptor on the same path does not ---- *)
+(* ---- outgoing RTCP objects: OBSERVATION OUTSIDE THE PROPERTY TEXT (C13 names the
+   payload slice, read buffer and header), not a finding and not asked by the
+   oracle.  As modelled the packetdump sender keeps the caller's []rtcp.Packet;
+   the statistics interceptor on the same path does not ---- *)
 Theorem C13b_scribble_independent_outgoing_rtcp_dump_refuted : forall (A : Type) (a b : A) (n : Z), a <> b ->
   xoutputs A lib_x (rtcp_out_history a b n) <> xoutputs A lib_x (xstrip A (rtcp_out_history a b n)).
 Proof. intros A. exact outgoing_rtcp_dump_depends. Qed.
@@ -164,7 +168,8 @@ Theorem C13b_outgoing_rtcp_stats_independent : forall (A : Type) (a b : A) (n : 
 Proof. intros A. exact outgoing_rtcp_stats_independent. Qed.
 Print Assumptions C13b_outgoing_rtcp_stats_independent.
 
-(* ---- the caller's attributes MAP (known finding): the gcc leaky bucket pacer
+(* ---- the caller's attributes MAP: OBSERVATION OUTSIDE THE PROPERTY TEXT, not a
+   finding and not asked by the oracle.  As modelled the gcc leaky bucket pacer
    queues it and packetdump hands it to the logger goroutine; pacing clones it ---- *)
 Theorem C13b_scribble_independent_attributes_leaky_bucket_refuted : forall (A : Type) (a b : A) (n : Z), a <> b ->
   xoutputs A lib_x (attr_history AttrLeakyBucket a b n) <> xoutputs A lib_x (xstrip A (attr_history AttrLeakyBucket a b n)).
